@@ -1,7 +1,7 @@
 (* C15 — stored characterisation is reused; fans are analysed once.
    This file holds only the property theorems; each is closed by [exact]. *)
 From Coq Require Import ZArith Bool List.
-From F2G Require Import Go.GoFloat gen.Consts Model.Util Model.Fan Model.Startup Proofs.Startup.
+From F2G Require Import Go.GoFloat gen.Consts Model.Util Model.Fan Model.Startup Proofs.Startup Drv.Startup.
 Import ListNotations.
 Open Scope Z_scope.
 
@@ -35,6 +35,14 @@ Theorem C15_history : forall fl d0 pre mid id,
   analysis_free (acts fl (exec fl (exec fl d0 pre) (Start id :: mid)) (Start id)).
 Proof. exact history_no_reanalysis. Qed.
 Print Assumptions C15_history.
+
+(* the four statements together, in the form the observer of the correspondence run checks them:
+   for ALL fleets, initial databases and command sequences the model's own trace passes the observer
+   [holdsb] (= [Holds], Drv.Startup.holdsb_spec); hence a case on which implementation and model agree holds. *)
+Theorem C15_model_trace_holds : forall fans db0 cmds,
+  holdsb (mkCase fans db0 cmds (model_steps (fleet_of fans) (db_of db0) cmds)) = true.
+Proof. exact model_output_holds. Qed.
+Print Assumptions C15_model_trace_holds.
 
 (* ---- non-vacuity ---- *)
 Definition ex_fan := mkFanCfg HwMon None None None false.
